@@ -34,6 +34,8 @@ type stats struct {
 	Samples  []string       `json:"samples"`
 }
 
+var outDirG = "."
+
 var st = &stats{Mutators: map[string]int{}, Decoded: map[string]int{}, Chain: map[string]int{}}
 
 type field struct {
@@ -275,6 +277,7 @@ func main() {
 	outDir := flag.String("outdir", ".", "output directory")
 	_ = flag.String("replay", "", "replay file (cases regenerate deterministically from the seed)")
 	flag.Parse()
+	outDirG = *outDir
 	r := sim.NewRng(sim.SeedFromEnv())
 	imp := "From V Require Import Bytes Proto Replay ReplayCheck."
 	w1 := &sim.CaseWriter{OutDir: *outDir, Name: "c06proto", Imports: imp, CaseType: "pcase", MFun: "proto_mismatches", VFun: "", PerShard: 100}
@@ -362,7 +365,11 @@ func chainMode(r *sim.Rng, nBlocks int, cw *sim.CaseWriter) {
 		tx := new(lib.Transaction)
 		if lib.Unmarshal(b, tx) == nil && tx.Signature != nil {
 			if pk, e := crypto.NewPublicKeyFromBytes(tx.Signature.PublicKey); e == nil && bytes.Equal(pk.Bytes(), tx.Signature.PublicKey) {
-				if sb, e2 := tx.GetSignBytes(); e2 == nil {
+				// the sign bytes, computed independently of GetSignBytes: the canonical encoding of the transaction without its
+				// signature (every other field, the nonce included, is signed content)
+				unsigned := &lib.Transaction{MessageType: tx.MessageType, Msg: tx.Msg, CreatedHeight: tx.CreatedHeight, Time: tx.Time, Fee: tx.Fee,
+					Memo: tx.Memo, NetworkId: tx.NetworkId, ChainId: tx.ChainId, Nonce: tx.Nonce}
+				if sb, e2 := lib.Marshal(unsigned); e2 == nil {
 					sigok = pk.VerifyBytes(sb, tx.Signature.Signature)
 				}
 			}
@@ -370,6 +377,10 @@ func chainMode(r *sim.Rng, nBlocks int, cw *sim.CaseWriter) {
 		var prevLits []string
 		for _, p := range prev {
 			prevLits = append(prevLits, sim.CoqBytes(p))
+		}
+		if ex && !sigok {
+			sim.Direct(outDirG, map[string]any{"finding": "executed-without-valid-signature", "kind": "a transaction was executed although its signature does not verify over the canonical encoding of its content",
+				"variant": kind, "height": h, "tx": fmt.Sprintf("%x", b)})
 		}
 		cw.Add(fmt.Sprintf("mkRCase 1 %s %s %s %s %s %s %s", sim.CoqN(chainID), sim.CoqN(rangeBlocks), sim.CoqN(h), sim.CoqList(prevLits), sim.CoqBytes(b), sim.CoqBool(sigok), sim.CoqBool(ex)),
 			map[string]any{"kind": kind, "height": h, "executed": ex})
@@ -401,7 +412,18 @@ func chainMode(r *sim.Rng, nBlocks int, cw *sim.CaseWriter) {
 			continue
 		}
 		src := pool[r.Intn(len(pool))]
-		switch r.Intn(6) {
+		switch r.Intn(7) {
+		case 6:
+			// a third party re-stamps the nonce of an included (native, non-RLP) transaction: canonical encoding, new hash, the
+			// original signature - the nonce is signed content, so the signature must not verify any more
+			t := new(lib.Transaction)
+			if lib.Unmarshal(src, t) == nil {
+				t.Nonce += 1 + uint64(r.Intn(1000))
+				v, _ := lib.Marshal(t)
+				if offer(n, executed, v, "variant:restamped-nonce", 1) {
+					executed = append(executed, v)
+				}
+			}
 		case 0:
 			if offer(n, executed, src, "identical-bytes", 1) {
 				executed = append(executed, src)
